@@ -181,10 +181,10 @@ theorem NestedIn.perm {x : Cav B} {cs cs' : List (Cav B)} (hp : cs.Perm cs') (h 
   | inside h hn => exact .inside (hp.mem_iff.mp h) hn
 
 mutual
-theorem mem_unwrapGet (p : Cav B → Bool) (x : Cav B) : (c : Cav B) →
+theorem authcav_mem_unwrapGet (p : Cav B → Bool) (x : Cav B) : (c : Cav B) →
     (x ∈ unwrapGet p c ↔ p x = true ∧ ∃ n ifs e, c = Cav.ifPresent n ifs e ∧ NestedIn x ifs.toList)
   | .ifPresent n ifs e => by
-    have ih := mem_getCaveatsL p x ifs
+    have ih := authcav_mem_getCaveatsL p x ifs
     simp only [unwrapGet, ih]
     constructor
     · rintro ⟨hp, hn⟩; exact ⟨hp, n, ifs, e, rfl, hn⟩
@@ -198,12 +198,12 @@ theorem mem_unwrapGet (p : Cav B → Bool) (x : Cav B) : (c : Cav B) →
   | .commands .. | .appFeatureSet .. | .storageObjects .. | .allowedRoles .. | .flySrc ..
   | .unregistered .. => by
     simp [unwrapGet]
-theorem mem_getCaveatsL (p : Cav B → Bool) (x : Cav B) : (l : CavList B) →
+theorem authcav_mem_getCaveatsL (p : Cav B → Bool) (x : Cav B) : (l : CavList B) →
     (x ∈ getCaveatsL p l ↔ p x = true ∧ NestedIn x l.toList)
   | .nil => by simp [getCaveatsL, CavList.toList, nestedIn_nil]
   | .cons c cs => by
-    have ih1 := mem_unwrapGet p x c
-    have ih2 := mem_getCaveatsL p x cs
+    have ih1 := authcav_mem_unwrapGet p x c
+    have ih2 := authcav_mem_getCaveatsL p x cs
     simp only [getCaveatsL, CavList.toList, List.mem_append, ih1, ih2, nestedIn_cons]
     by_cases hpc : p c = true
     · simp only [hpc, ↓reduceIte, List.mem_singleton]
@@ -228,12 +228,12 @@ theorem mem_getCaveatsL (p : Cav B → Bool) (x : Cav B) : (l : CavList B) →
 end
 
 /-- `GetCaveats[T]` returns exactly the caveats of type `T` occurring at any nesting depth -/
-theorem mem_getCaveats (p : Cav B → Bool) (x : Cav B) (cs : List (Cav B)) :
+theorem authcav_mem_getCaveats (p : Cav B → Bool) (x : Cav B) (cs : List (Cav B)) :
     x ∈ getCaveats p cs ↔ p x = true ∧ NestedIn x cs := by
   induction cs with
   | nil => simp [getCaveats, nestedIn_nil]
   | cons c cs ih =>
-    have ih1 := mem_unwrapGet p x c
+    have ih1 := authcav_mem_unwrapGet p x c
     simp only [getCaveats, List.mem_append, ih1, ih, nestedIn_cons]
     by_cases hpc : p c = true
     · simp only [hpc, ↓reduceIte, List.mem_singleton]
@@ -257,10 +257,10 @@ theorem mem_getCaveats (p : Cav B → Bool) (x : Cav B) (cs : List (Cav B)) :
         · exact Or.inr ⟨hp, h⟩
 
 /-- the durations `GetMaxValidity` folds over: one per `MaxValidity` caveat at any depth -/
-theorem mem_maxValidityDurations (cs : List (Cav B)) (d : Int) :
+theorem authcav_mem_maxValidityDurations (cs : List (Cav B)) (d : Int) :
     d ∈ maxValidityDurations cs ↔ ∃ s, NestedIn (Cav.maxValidity s) cs ∧ d = GoTime.durationOfSecs s := by
   unfold maxValidityDurations
-  simp only [List.mem_filterMap, mem_getCaveats]
+  simp only [List.mem_filterMap, authcav_mem_getCaveats]
   constructor
   · rintro ⟨c, ⟨hp, hn⟩, hc⟩
     cases c <;> simp [Cav.isMaxValidity] at hp hc
